@@ -462,6 +462,9 @@ def pct_factor(text):
     return p / 100, exact
 
 
+STATS = {'certified_exact': 0, 'certified_on_boundary': 0, 'guard_banded': 0, 'clear_of_band': 0}
+
+
 def classify(e, s, tol):
     """one sample: 'ok' | 'fail' | 'band'.  e, s: V with equal shapes (finite)."""
     d2 = sum(((x[0] - y[0]) ** 2 + (x[1] - y[1]) ** 2 for x, y in zip(e.items, s.items)), Fraction(0))
@@ -488,13 +491,18 @@ def classify(e, s, tol):
             ok = (re_ is not None and repr53(re_) and repr53(e2) and repr53(re_ * f)
                   and 2 * n * e.mag * e.mag * (1 << (2 * e.den)) < (1 << 52))
         if ok:
+            STATS['certified_exact'] += 1
+            if d2 == T2:
+                STATS['certified_on_boundary'] += 1
             return 'ok' if d2 <= T2 else 'fail'
     # -- otherwise: guard band of 1e-9 relative to the magnitudes that entered the computation
     dn = math.sqrt(float(d2))
     Tn = math.sqrt(float(T2))
     scale = float(e.mag + s.mag) * math.sqrt(n) * (1.0 + Tn / (math.sqrt(float(e2)) + 1e-300) if tol[0] == 'pct' else 1.0) + Tn + dn
     if abs(dn - Tn) <= 1e-9 * scale:
+        STATS['guard_banded'] += 1
         return 'band'
+    STATS['clear_of_band'] += 1
     return 'ok' if d2 <= T2 else 'fail'
 
 
@@ -923,7 +931,7 @@ def run_graders(ctx, res, rng):
     quick = ctx['tier'] == 'quick'
     n_cases = 1500 if quick else 14000
     if ctx['escalate'] and quick:
-        n_cases = 2200
+        n_cases = 1500
     cases = corpus()
     res.distribution['corpus_cases'] = len(cases)
     for i in range(n_cases):
@@ -1035,7 +1043,7 @@ def run_within(ctx, res, rng):
     from mitxgraders import MathArray
     from mitxgraders.helpers.calc.mathfuncs import within_tolerance
     quick = ctx['tier'] == 'quick'
-    n_cases = 1200 if quick else 12000
+    n_cases = 800 if quick else 12000
     inf = float('inf')
     cases = []
     # infinities: only the same infinity matches, whatever the tolerance
@@ -1157,7 +1165,7 @@ def direct_oracle(x, y, tol, st, out):
 def run_consolidate(ctx, res, rng):
     from mitxgraders import FormulaGrader
     quick = ctx['tier'] == 'quick'
-    n_cases = 1200 if quick else 12000
+    n_cases = 800 if quick else 12000
     terms, metas = [], []
     oks = [True, True, True, False, 'partial']
     for i in range(n_cases):
@@ -1255,6 +1263,8 @@ def run_validators(ctx, res, rng):
 def run(ctx):
     res = core.Result()
     rng = random.Random(7919 * ctx['seed'] + 4)
+    for k in STATS:
+        STATS[k] = 0
     res.rule = ('grader calls: fixed boundary/norm/operand-order/counting corpus + random (grader kind, answer, student family '
                 'delta/scale/branch/rewrite, tolerance, samples, failable_evals, recorded sample values) cases, half exactly '
                 'representable (verdict demanded on the boundary itself) and half random reals (guard band 1e-9); non-trivial = '
@@ -1265,6 +1275,7 @@ def run(ctx):
     run_consolidate(ctx, res, rng)
     run_infinite(ctx, res, rng)
     run_validators(ctx, res, rng)
+    res.distribution['oracle_sample_decisions'] = dict(STATS)
     return res
 
 
